@@ -24,7 +24,7 @@ CFG = {
         valid_only=True,
         quick=220,
         thorough=6000,
-        fault_rates=(0.0, 0.0, 0.0, 0.02),
+        fault_rates=(0.0,),  # solver faults are the business of C02/C03/C09/C10
         need=dict(decided=("C01", 5)),
         title="valid regions => eps-accurate Pareto set (PaVeBa family, Auer)",
     ),
@@ -53,7 +53,7 @@ CFG = {
         valid_only=True,
         quick=220,
         thorough=6000,
-        fault_rates=(0.0, 0.0, 0.0, 0.02),
+        fault_rates=(0.0,),  # solver faults are the business of C02/C03/C09/C10
         need=dict(decided=("C05", 5)),
         title="VOGP / eps-PAL keep eps-isolated optima; P internally non-eps-dominated",
     ),
